@@ -53,7 +53,8 @@ pub fn check(t: &Trace<'_>, out: &mut CaseOut) -> bool {
             let mut hit = false;
             if matches!(d.outcome, Outcome::Ok(_)) && !whole {
                 let a = ops_here.iter().rev().find(|o| o.ev_ret < d.ev_call && o.out_after > o.out_before);
-                if was_mid && a.is_some_and(|a| a.kind == "disconnect" && a.outcome == Outcome::Cancelled) {
+                let earlier_cancelled = ops_here.iter().any(|o| o.kind == "disconnect" && o.outcome == Outcome::Cancelled && o.out_after > o.out_before && o.ev_ret < d.ev_call);
+                if was_mid && earlier_cancelled {
                     out.violations.push(viol(
                         "C01",
                         "C01/cancelled-DISCONNECT/handle-keeps-writing",
@@ -95,7 +96,9 @@ pub fn check(t: &Trace<'_>, out: &mut CaseOut) -> bool {
                     let x = d.out_after - 1;
                     let holder = s.packets.iter().find(|p| p.start <= x && x < p.end);
                     let broken = match holder {
-                        None => true,
+                        // still incomplete at the end of the connection: only a framing error shows
+                        // that later bytes did not continue it (a torn tail is judged further below)
+                        None => s.error.as_ref().is_some_and(|e| e.0 >= pkt_start),
                         Some(p) if matches!(p.pkt, CPacket::Disconnect { .. }) => s.bytes.len() > p.end,
                         Some(_) => false,
                     } || disconnect_at.is_some_and(|(_, end)| s.bytes.len() > end);
